@@ -29,12 +29,14 @@ ENCODED = ["twisted.internet.defer:_inlineCallbacks", "twisted.internet.defer:_g
            "twisted.internet.defer:_addCancelCallbackToDeferred", "twisted.internet.defer:Deferred.__iter__",
            "twisted.internet.defer:ensureDeferred", "twisted.internet.defer:Deferred.fromCoroutine",
            "twisted.internet.defer:inlineCallbacks", "twisted.internet.defer:Deferred.cancel"]
-BOUNDS = {"quick": {"k": 3}, "thorough": {"k": 5}}
+BOUNDS = {"quick": {"k": 3, "cm": 1}, "thorough": {"k": 5, "cm": 2}}
 B = {}
 BOUNDS_TEXT = ("5 templates x generator/coroutine (nested template: 5 nesting flavours) = 13 programs; 1 <= k <= K "
-               "awaited Deferreds (K = 3 quick, 5 thorough); schedule = any sequence of distinct slots (others never "
-               "fire), success or failure each, any prefix of it fired before the function starts; cancel() of the "
-               "returned Deferred at any one point or never; slot cancellers: no-op / fire a value / fire a failure")
+               "awaited Deferreds; schedule = any sequence of distinct slots (others never fire), success or failure "
+               "each, any prefix of it fired before the function starts; cancel() of the returned Deferred at any "
+               "one point or never; slot cancellers: no-op / fire a value (quick) / fire a failure (thorough only). "
+               "quick: K = 3.  thorough: K = 4 with all schedules, plus k = 5 with the slots fired in index order "
+               "(any number of them, any pre-fired prefix, any outcomes, any cancellation point)")
 OUTSIDE = ["randomly structured programs: the program shape is one of 13 fixed templates, only data, schedule and "
            "cancellation point are symbolic", "more than K awaits; a second cancel()",
            "slot values are the fixed integers 100+i (900+i / failures 50+i from cancellers), failures are _Err(i)",
@@ -298,7 +300,7 @@ def _run(tmpl, flav, k, L, os_, ss, p, c, cm):
     oks = [True if ss[j] else False for j in range(L)]
     p = _pick(p, L)
     c = -1 if c < 0 else _pick(c, L - p)
-    cm = _pick(cm, 2)
+    cm = _pick(cm, B['cm'])
 
     ctx = _RealCtx(k, cm)
     outs = [None] * k
@@ -375,7 +377,7 @@ def program(tmpl: int, flav: int, k: int, L: int, o0: int, o1: int, o2: int, o3:
     """
     pre: 0 <= tmpl <= 4 and 0 <= flav <= (4 if tmpl == 4 else 1)
     pre: 1 <= k <= B['k'] and 0 <= L <= k and 0 <= p <= L and -1 <= c <= L - p
-    pre: 0 <= cm <= 2 and (c >= 0 or cm == 0)
+    pre: 0 <= cm <= B['cm'] and (c >= 0 or cm == 0)
     pre: (0 <= o0 < k and L > 0) or (o0 == 0 and not s0 and L <= 0)
     pre: (0 <= o1 < k and L > 1) or (o1 == 0 and not s1 and L <= 1)
     pre: (0 <= o2 < k and L > 2) or (o2 == 0 and not s2 and L <= 2)
@@ -391,11 +393,22 @@ def program(tmpl: int, flav: int, k: int, L: int, o0: int, o1: int, o2: int, o3:
     return _run(tmpl, flav, k, L, (o0, o1, o2, o3, o4), (s0, s1, s2, s3, s4), p, c, cm)
 
 
+_SEQ5 = ("k == 5 and o0 == 0 and (L < 2 or o1 == 1) and (L < 3 or o2 == 2) and (L < 4 or o3 == 3) "
+         "and (L < 5 or o4 == 4)")
+
+
 def _shards(tier):
     out = []
     for (t, f) in PROGRAMS:
-        out.append(("tmpl == %d" % t, "flav == %d" % f, "p == 0"))
-        out.append(("tmpl == %d" % t, "flav == %d" % f, "p > 0"))
+        prog = ("tmpl == %d" % t, "flav == %d" % f)
+        if tier == "quick":
+            out.append(prog + ("p == 0",))
+            out.append(prog + ("p > 0",))
+        else:
+            out.append(prog + ("k <= 3",))
+            for o in range(4):
+                out.append(prog + ("k == 4", "o0 == %d" % o))
+            out.append(prog + (_SEQ5,))
     return out
 
 
@@ -411,9 +424,9 @@ def _v(tmpl, flav, k, order, oks, p, c, cm):
 VECTORS = {"program": [
     _v(0, 0, 3, [0, 1, 2], [1, 1, 1], 3, -1, 0), _v(0, 1, 3, [2, 0, 1], [1, 1, 0], 1, -1, 0),
     _v(1, 0, 3, [1, 0], [1, 1], 0, 1, 1), _v(1, 1, 3, [0, 2], [1, 1], 1, 0, 1),
-    _v(2, 0, 3, [0, 1, 2], [0, 1, 0], 0, 1, 0), _v(2, 1, 3, [2, 1], [0, 0], 2, 0, 2),
-    _v(3, 0, 3, [0], [0], 0, 1, 0), _v(3, 1, 3, [1, 0, 2], [1, 1, 1], 0, 0, 2),
+    _v(2, 0, 3, [0, 1, 2], [0, 1, 0], 0, 1, 0), _v(2, 1, 3, [2, 1], [0, 0], 2, 0, 1),
+    _v(3, 0, 3, [0], [0], 0, 1, 0), _v(3, 1, 3, [1, 0, 2], [1, 1, 1], 0, 0, 1),
     _v(4, 0, 3, [0, 1, 2], [0, 1, 1], 1, 0, 0), _v(4, 1, 3, [1, 0, 2], [1, 0, 1], 0, 1, 1),
-    _v(4, 2, 3, [0, 1, 2], [1, 1, 1], 0, 0, 0), _v(4, 3, 3, [2, 1, 0], [1, 1, 1], 0, 2, 2),
+    _v(4, 2, 3, [0, 1, 2], [1, 1, 1], 0, 0, 0), _v(4, 3, 3, [2, 1, 0], [1, 1, 1], 0, 2, 1),
     _v(4, 4, 3, [0], [1], 0, 1, 0), _v(0, 0, 1, [], [], 0, 0, 1),
 ]}
